@@ -342,3 +342,17 @@ Theorem C04_fields_composition_current : forall line is_curves is_param,
 Proof. exact read_header_line_fields. Qed.
 Print Assumptions C04_fields_current.
 Print Assumptions C04_fields_composition_current.
+
+(* ---- the whole of read_header_line is the Python's ---------------------------------------------------
+   C04_fields_current above covers only the loop over the matched groups.  Here the whole function
+   body (called with pattern=None, the only way lasio calls it) is re-translated on every run
+   (py_read_header_line): the patterns are those of the translated configure_metadata_patterns, they are
+   tried in order with re.match until one matches (the loop with `break`), m.groupdict() is the dict of the
+   named groups that took part (pyo_groupdict; None: m is None, AttributeError), then the loop over the
+   groups.  A change of re.match to another call, of the order of the attempts, or a statement that rewrites
+   `line` before matching changes the translation and breaks this theorem (or is refused by the translator). *)
+Theorem C04_read_header_line_current : forall line section_name,
+  py_read_header_line line None section_name
+  = option_map hline_dict (read_header_line line (str_eqb section_name name_Curves) (str_eqb section_name name_Parameter)).
+Proof. exact read_header_line_pin. Qed.
+Print Assumptions C04_read_header_line_current.
